@@ -217,6 +217,35 @@ func numberedLines(src string) (nums []int, texts []string) {
 	return
 }
 
+// unquotedContent returns the first line of an excerpt that is neither a numbered line nor a marker line
+// (no letters, digits or non-ASCII bytes); "" if there is none.
+func unquotedContent(src string) string {
+	for _, l := range strings.Split(src, "\n") {
+		t := strings.TrimLeft(l, " ")
+		j := 0
+		for j < len(t) && t[j] >= '0' && t[j] <= '9' {
+			j++
+		}
+		if j > 0 && j < len(t) && t[j] == '|' {
+			continue
+		}
+		// a marker line carries no letters, digits or non-ASCII bytes (whatever symbols the layout uses)
+		marker := true
+		for i := 0; i < len(l); i++ {
+			ch := l[i]
+			if ch >= 0x80 || (ch >= '0' && ch <= '9') || (ch >= 'a' && ch <= 'z') || (ch >= 'A' && ch <= 'Z') {
+				marker = false
+				break
+			}
+		}
+		if marker {
+			continue
+		}
+		return l
+	}
+	return ""
+}
+
 // CheckC20Text checks ResolvePos/Position for every pair 0<=p<=e<=len of buf (allPairs) or a sample of pairs.
 func CheckC20Text(c *Ctx, buf string, pairs [][2]int) {
 	c.Journal("position", buf)
@@ -260,6 +289,10 @@ func CheckC20Text(c *Ctx, buf string, pairs [][2]int) {
 			c.Violate("c20:position-string", "position", buf, fmt.Sprintf("%s: String() = %q, want %q", id, pos.String(), want))
 		}
 		nums, texts := numberedLines(pos.Source)
+		if extra := unquotedContent(pos.Source); extra != "" {
+			c.Violate("c20:excerpt-extra-content", "position", buf, fmt.Sprintf("%s: the excerpt contains a line that is neither a numbered line of the range nor a marker line: %q; source=%q", id, extra, pos.Source))
+			continue
+		}
 		if len(nums) != el-wl+1 {
 			c.Violate("c20:excerpt-lines", "position", buf, fmt.Sprintf("%s: excerpt has %d numbered lines, want lines %d..%d; source=%q", id, len(nums), wl+1, el+1, pos.Source))
 			continue
